@@ -219,6 +219,9 @@ def tracing(mode=True):
         with cm:
             if mode == "werror":
                 warnings.simplefilter("error")
+                # (the categories Python itself hides by default stay as they are: a harmless modernisation may emit them)
+                for cat in (DeprecationWarning, PendingDeprecationWarning, ImportWarning, ResourceWarning):
+                    warnings.simplefilter("default", cat)
             yield
     finally:
         websocket.enableTrace(False)
